@@ -640,8 +640,8 @@ func blockIf(b *ssa.BasicBlock) *ssa.If {
 // returnsOf lists the Return instructions of fn.
 func returnsOf(fn *ssa.Function) []*ssa.Return {
 	var out []*ssa.Return
-	forEachInstr(fn, func(_ *ssa.BasicBlock, _ int, in ssa.Instruction) {
-		if r, ok := in.(*ssa.Return); ok {
+	forEachInstr(fn, func(b *ssa.BasicBlock, _ int, in ssa.Instruction) {
+		if r, ok := in.(*ssa.Return); ok && b != fn.Recover {
 			out = append(out, r)
 		}
 	})
@@ -672,4 +672,29 @@ func short(s string, n int) string {
 		return s[:n] + "…"
 	}
 	return s
+}
+
+// retVal returns the idx-th result of a return, looking through the "defer-spilled" form in which
+// results are stored to a local and re-loaded after rundefers: the value last stored to that local
+// in the same block is returned instead.
+func retVal(ret *ssa.Return, idx int) ssa.Value {
+	if idx >= len(ret.Results) {
+		return nil
+	}
+	v := ret.Results[idx]
+	u, ok := v.(*ssa.UnOp)
+	if !ok || u.Op != token.MUL {
+		return v
+	}
+	al, ok := u.X.(*ssa.Alloc)
+	if !ok {
+		return v
+	}
+	b := ret.Block()
+	for i := len(b.Instrs) - 1; i >= 0; i-- {
+		if st, ok := b.Instrs[i].(*ssa.Store); ok && st.Addr == ssa.Value(al) {
+			return st.Val
+		}
+	}
+	return v
 }
